@@ -8,7 +8,8 @@ pub fn ty_wgsl(t: &Ty) -> String {
         Ty::Vec { n, s } => format!("vec{n}<{s}>"),
         Ty::Mat { c, r, s } => format!("mat{c}x{r}<{s}>"),
         Ty::Atomic { s } => format!("atomic<{s}>"),
-        Ty::Array { n, e } => format!("array<{}, {n}>", ty_wgsl(e)),
+        Ty::Array { e, len: Some(l), .. } => format!("array<{}, {l}>", ty_wgsl(e)),
+        Ty::Array { n, e, .. } => format!("array<{}, {n}>", ty_wgsl(e)),
         Ty::Rtarray { e } => format!("array<{}>", ty_wgsl(e)),
         Ty::Struct { name } => name.clone(),
         Ty::Sampler { cmp } => if *cmp { "sampler_comparison" } else { "sampler" }.to_string(),
@@ -36,6 +37,19 @@ pub fn ty_wgsl(t: &Ty) -> String {
             }
             _ => format!("texture_storage_{dim}<{format}, {access}>"),
         },
+    }
+}
+
+/// the spelling of a member / variable type: sub-terms that have an alias are spelled with it
+pub fn ty_wgsl_aliased(s: &Shader, t: &Ty) -> String {
+    if let Some(a) = s.aliases.iter().find(|a| &a.ty == t) {
+        return a.name.clone();
+    }
+    match t {
+        Ty::Array { e, len: Some(l), .. } => format!("array<{}, {l}>", ty_wgsl_aliased(s, e)),
+        Ty::Array { n, e, .. } => format!("array<{}, {n}>", ty_wgsl_aliased(s, e)),
+        Ty::Rtarray { e } => format!("array<{}>", ty_wgsl_aliased(s, e)),
+        _ => ty_wgsl(t),
     }
 }
 
@@ -331,6 +345,9 @@ pub fn concretise(s: &Shader) -> String {
     if s.globals.iter().any(|g| g.space == "push") || true {
         // no enable directives needed for naga 24
     }
+    for a in &s.aliases {
+        let _ = writeln!(out, "alias {} = {};", a.name, ty_wgsl(&a.ty));
+    }
     for d in &s.structs {
         let _ = writeln!(out, "struct {} {{", d.name);
         for m in &d.members {
@@ -341,7 +358,7 @@ pub fn concretise(s: &Shader) -> String {
             if let Some(z) = m.size {
                 let _ = write!(attrs, "@size({z}) ");
             }
-            let _ = writeln!(out, "    {attrs}{}: {},", m.name, ty_wgsl(&m.ty));
+            let _ = writeln!(out, "    {attrs}{}: {},", m.name, ty_wgsl_aliased(s, &m.ty));
         }
         let _ = writeln!(out, "}}");
     }
@@ -384,7 +401,7 @@ pub fn concretise(s: &Shader) -> String {
             "push" => "var<push_constant>",
             _ => "var",
         };
-        let _ = writeln!(out, "{gb}{sp} {}: {};", g.name, ty_wgsl(&g.ty));
+        let _ = writeln!(out, "{gb}{sp} {}: {};", g.name, ty_wgsl_aliased(s, &g.ty));
     }
     let mut cx = Ctx { s, tmp: 0 };
     for f in &s.functions {
